@@ -52,7 +52,7 @@ Print Assumptions C20_totals.
 
 (* ---- conservation: liquid + locked + scheduled (+ operator-node charge destroyed) ---- *)
 (* every loop iteration (fee, snapshot, Execute, revert on failure), successful or rejected *)
-Theorem C20_conservation_tx : forall A I W e h t s, universe A I -> supply_bound W -> tx_closed A I t ->
+Theorem C20_conservation_tx : forall A I W e h t s, g002 (gates e) = true -> universe A I -> supply_bound W -> tx_closed A I t ->
   led_inv A I W s -> led_inv A I W (fst (run_tx e h t s)).
 Proof. exact run_tx_inv. Qed.
 Print Assumptions C20_conservation_tx.
@@ -60,7 +60,7 @@ Print Assumptions C20_conservation_tx.
 (* every history of blocks (transactions, RefundManager.Add of refunds and of the block's rewards, CheckAndMove,
    flush): wealth = initial wealth + the rewards the blocks' after() phases scheduled, balances stay non-negative,
    the registry stays well-formed *)
-Theorem C20_conservation : forall A I e bs W s, universe A I -> supply_bound (W + minted_chain bs) ->
+Theorem C20_conservation : forall A I e bs W s, g002 (gates e) = true -> universe A I -> supply_bound (W + minted_chain bs) ->
   Forall (block_closed_led A I) bs -> led_inv A I W s -> led_inv A I (W + minted_chain bs) (run_chain e bs s).
 Proof. exact run_chain_inv. Qed.
 Print Assumptions C20_conservation.
@@ -74,7 +74,7 @@ Print Assumptions C20_stake_accounting.
 
 (* for every history: the stake of miner i after the chain = its stake before + everything the successful
    apply / add / refund transactions of the chain booked for it *)
-Theorem C20_stake_history : forall A I e bs W s i, universe A I -> supply_bound (W + minted_chain bs) ->
+Theorem C20_stake_history : forall A I e bs W s i, g002 (gates e) = true -> universe A I -> supply_bound (W + minted_chain bs) ->
   Forall (block_closed_led A I) bs -> led_inv A I W s ->
   stake_of (run_chain e bs s) i = stake_of s i + booked_chain e bs s i.
 Proof. exact run_chain_stake. Qed.
@@ -83,12 +83,23 @@ Print Assumptions C20_stake_history.
 (* ---- a rejected transaction changes nothing but the fee ---- *)
 (* (in the model the revert is exact; that AccountDB.RevertToSnapshot restores the state is property C04; the
    refund requests of the executor context are outside the snapshot and are shown untouched here) *)
-Theorem C20_rejected_noop : forall e h t s s' r, run_tx e h t s = (s', r) -> r <> ROk ->
+Theorem C20_rejected_noop : forall e h t s s' r, g002 (gates e) = true -> run_tx e h t s = (s', r) -> r <> ROk ->
   (r = REvict /\ s' = s) \/
-  (r <> REvict /\ tx_fee <= bal s (tx_src t) /\ same_but_bal s s' /\
-   bal s' = add_bal (fst (sub_bal (bal s) (tx_src t) tx_fee)) fee_account tx_fee).
+  (r <> REvict /\ tx_fee e <= bal s (tx_src t) /\ same_but_bal s s' /\
+   bal s' = add_bal (fst (sub_bal (bal s) (tx_src t) (tx_fee e))) fee_account (tx_fee e)).
 Proof. exact rejected_noop. Qed.
 Print Assumptions C20_rejected_noop.
+
+(* Before proposal002 (historic behaviour kept for replay) the guard g002 cannot be dropped: balance writes were not
+   journalled, the 10-token charge of a REJECTED operator-node transaction survives the revert *)
+Theorem C20_rejected_noop_pre002_refuted :
+  let s := empty_state rich in
+  let r := run_tx env_pre002 100 (TOpNode 2 None) s in
+  snd r = RNoMiner /\
+  bal (fst r) 2%N = bal s 2%N - tx_fee env_pre002 - ten_tokens /\
+  wealth [1%N; 2%N] [1%N; 2%N] (fst r) = wealth [1%N; 2%N] [1%N; 2%N] s - ten_tokens.
+Proof. exact rejected_noop_pre002_refuted. Qed.
+Print Assumptions C20_rejected_noop_pre002_refuted.
 
 (* ---- an account controls at most one miner ---- *)
 (* The unguarded statement is FALSE for the code as written: two MinerApply naming one account in one block both
@@ -183,7 +194,7 @@ Proof. exact k_stake_step. Qed.
 Print Assumptions C20_stake_accounting_keys.
 
 Theorem C20_conservation_keys : forall H idkey au, keys_disjoint H idkey ->
-  forall A I W e h t s, universe A I -> supply_bound W -> tx_closed A I t -> led_inv A I W (view H idkey au s) ->
+  forall A I W e h t s, g002 (gates e) = true -> universe A I -> supply_bound W -> tx_closed A I t -> led_inv A I W (view H idkey au s) ->
   led_inv A I W (view H idkey au (fst (k_run_tx H idkey au e h t s))).
 Proof. exact k_inv_step. Qed.
 Print Assumptions C20_conservation_keys.
@@ -214,14 +225,14 @@ Proof. exact k_run_chain_sim. Qed.
 Print Assumptions C20_key_chain_simulation.
 
 Theorem C20_conservation_keys_history : forall H idkey au, keys_disjoint H idkey ->
-  forall A I e bs W s, kst_inv H idkey s -> universe A I -> supply_bound (W + minted_chain bs) ->
+  forall A I e bs W s, g002 (gates e) = true -> kst_inv H idkey s -> universe A I -> supply_bound (W + minted_chain bs) ->
   Forall (block_closed_led A I) bs -> led_inv A I W (view H idkey au s) ->
   led_inv A I (W + minted_chain bs) (view H idkey au (k_run_chain H idkey au e bs s)).
 Proof. exact k_history_conservation. Qed.
 Print Assumptions C20_conservation_keys_history.
 
 Theorem C20_stake_history_keys : forall H idkey au, keys_disjoint H idkey ->
-  forall A I e bs W s i, kst_inv H idkey s -> universe A I -> supply_bound (W + minted_chain bs) ->
+  forall A I e bs W s i, g002 (gates e) = true -> kst_inv H idkey s -> universe A I -> supply_bound (W + minted_chain bs) ->
   Forall (block_closed_led A I) bs -> led_inv A I W (view H idkey au s) ->
   stake_of (view H idkey au (k_run_chain H idkey au e bs s)) i =
   stake_of (view H idkey au s) i + booked_chain e bs (view H idkey au s) i.
@@ -253,7 +264,7 @@ Theorem C20_alias_stake_refuted : forall (H : key -> key) idkey au st k x y n ap
   H (idkey x) <> H (H (H (H (idkey x)))) ->
   st k (k1 H idkey x) = Some (CStake n) ->
   rd_info (st k (k0 idkey y)) = None /\
-  s_stake (view_cur H idkey au (k_apply_w H idkey st (WNew k y ap stake acct)) k x) = JSONPFX.
+  s_stake (view_cur H idkey au (k_apply_w H idkey st (WNew k y ap stake acct true)) k x) = JSONPFX.
 Proof. exact alias_stake_refuted. Qed.
 Print Assumptions C20_alias_stake_refuted.
 
@@ -262,7 +273,7 @@ Theorem C20_alias_account_refuted : forall (H : key -> key) idkey au st k x y a 
   H (H (idkey x)) <> H (H (H (H (H (idkey x))))) ->
   st k (k2 H idkey x) = Some (CAcct a) ->
   rd_info (st k (k0 idkey y)) = None /\
-  s_acct (view_cur H idkey au (k_apply_w H idkey st (WNew k y ap stake acct)) k x) = junk_json y.
+  s_acct (view_cur H idkey au (k_apply_w H idkey st (WNew k y ap stake acct true)) k x) = junk_json y.
 Proof. exact alias_account_refuted. Qed.
 Print Assumptions C20_alias_account_refuted.
 
@@ -272,7 +283,7 @@ Theorem C20_alias_status_refuted : forall (H : key -> key) idkey au st k x y ap 
   st k (k3 H idkey x) = Some (CStat 1) ->
   rd_info (st k (k0 idkey y)) = None /\
   s_stat (view_cur H idkey au st k x) = 1%N /\
-  s_stat (view_cur H idkey au (k_apply_w H idkey st (WNew k y ap stake acct)) k x) = 0%N.
+  s_stat (view_cur H idkey au (k_apply_w H idkey st (WNew k y ap stake acct true)) k x) = 0%N.
 Proof. exact alias_status_refuted. Qed.
 Print Assumptions C20_alias_status_refuted.
 
